@@ -173,6 +173,16 @@ def mutate(data: bytes, spec: list, other: bytes = b"") -> bytes:
         if i < 0:
             return data
         return data[:i] + struct.pack("<II", 0x1014, spec[1]) + data[i + 8:]
+    if op == "himg":                                   # the hostile image itself (for the sniffers)
+        return HOSTILE_IMAGES[spec[1]]
+    if op == "zipimg":                                 # every raster media part of a ZIP container replaced
+        return zip_images(data, HOSTILE_IMAGES[spec[1]])
+    if op == "rtfpict":                                # RTF with a \\pict group holding the hostile image (hex)
+        return rtf_with_picture(HOSTILE_IMAGES[spec[1]], spec[2])
+    if op == "epubimg":                                # EPUB whose manifest lists the hostile image
+        return epub_with_image(HOSTILE_IMAGES[spec[1]], spec[2])
+    if op == "imgpatch":                               # raw image embedded in an OLE / PDF / any container, in place
+        return patch_embedded_image(data, HOSTILE_IMAGES[spec[1]], spec[2])
     if op == "zipshell":
         return zip_shell(data, spec[1], spec[2], spec[3])
     if op == "ziphdr":
@@ -496,3 +506,108 @@ def pdf_cycle_evidence(data: bytes) -> dict:
         if out["parentcycle"]:
             break
     return out
+
+
+# --------------------------------------------------------------- image-header-aware mutants of EMBEDDED images
+# The dimension sniffers (util/image_utils.get_image_dimensions / get_jpeg_dimensions, the copies
+# _get_image_pixel_dimensions in docx / pptx / xlsx, doc_extractor's PNG chunk walker) read segment / chunk lengths
+# from the image bytes; byte-level mutation of the container almost never produces a well-formed container around a
+# hostile image header, so these are built on purpose.
+_SOI = b"\xff\xd8"
+_APP0 = b"\xff\xe0\x00\x10JFIF\x00\x01\x01\x00\x00\x01\x00\x01\x00\x00"
+_SOF0 = b"\xff\xc0\x00\x11\x08\x00\x06\x00\x09\x03\x01\x11\x00\x02\x11\x00\x03\x11\x00"
+_EOI = b"\xff\xd9"
+_PNGSIG = b"\x89PNG\r\n\x1a\n"
+
+
+def _png_chunk(t, d, length=None):
+    import zlib as _z
+    return struct.pack(">I", len(d) if length is None else length) + t + d + struct.pack(">I", _z.crc32(t + d) & 0xFFFFFFFF)
+
+
+_IHDR = struct.pack(">IIBBBBB", 7, 5, 8, 2, 0, 0, 0)
+HOSTILE_IMAGES = {
+    # JPEG: marker segments whose length field is illegal, absent, or lies
+    "j_len0": _SOI + b"\xff\xe0\x00\x00" + b"JFIF\x00" + b"\x11" * 40 + _EOI,          # length 0 (minimum is 2), no SOF
+    "j_len0_sof": _SOI + b"\xff\xe0\x00\x00" + _SOF0 + _EOI,                          # length 0 right before the SOF
+    "j_len1": _SOI + b"\xff\xe1\x00\x01" + b"\x22" * 30 + _SOF0 + _EOI,
+    "j_len2chain": _SOI + b"\xff\xe2\x00\x02" * 300 + _SOF0 + _EOI,                   # 300 empty segments
+    "j_len0chain": _SOI + b"\xff\xe1\x00\x00" * 60 + _EOI,
+    "j_lenmax": _SOI + b"\xff\xe0\xff\xff" + b"\x33" * 50 + _EOI,                       # length beyond the data
+    "j_trunc_len": _SOI + b"\xff\xe0\x00",                                              # ends inside the length field
+    "j_trunc_sof": _SOI + _APP0 + b"\xff\xc0\x00\x11\x08\x00",                        # ends inside the SOF
+    "j_pad": _SOI + b"\xff" * 200 + b"\xe0\x00\x10" + b"\x00" * 14 + _SOF0 + _EOI,       # fill bytes before a marker
+    "j_allff": _SOI + b"\xff" * 4000,
+    "j_nomarker": _SOI + b"\x00" * 4000,
+    "j_sof_zero": _SOI + _APP0 + b"\xff\xc0\x00\x11\x08\x00\x00\x00\x00\x03" + b"\x01\x11\x00" * 3 + _EOI,
+    "j_sof_len0": _SOI + _APP0 + b"\xff\xc2\x00\x00\x08\x00\x06\x00\x09\x03" + b"\x01\x11\x00" * 3 + _EOI,
+    "j_sos_first": _SOI + b"\xff\xda\x00\x00" + b"\x55" * 100 + _SOF0 + _EOI,
+    "j_soi_only": _SOI + b"\xff",
+    "j_valid": _SOI + _APP0 + _SOF0 + _EOI,
+    # PNG: chunk lengths and IHDR
+    "p_lenmax": _PNGSIG + _png_chunk(b"IHDR", _IHDR, 0xFFFFFFFF) + _png_chunk(b"IEND", b""),
+    "p_len0": _PNGSIG + _png_chunk(b"IHDR", _IHDR, 0) + _png_chunk(b"IEND", b""),
+    "p_noihdr": _PNGSIG + _png_chunk(b"IDAT", b"\x00" * 20) + _png_chunk(b"IEND", b""),
+    "p_trunc": _PNGSIG + b"\x00\x00\x00\x0dIH",
+    "p_zero": _PNGSIG + _png_chunk(b"IHDR", struct.pack(">IIBBBBB", 0, 0, 8, 2, 0, 0, 0)) + _png_chunk(b"IEND", b""),
+    "p_huge": _PNGSIG + _png_chunk(b"IHDR", struct.pack(">IIBBBBB", 0xFFFFFFFF, 0xFFFFFFFF, 8, 2, 0, 0, 0)),
+    "p_chunks0": _PNGSIG + _png_chunk(b"IHDR", _IHDR) + (b"\x00\x00\x00\x00tEXt" + b"\x00" * 4) * 200,
+    "p_chunkneg": _PNGSIG + _png_chunk(b"tEXt", b"a", 0x80000000) + _png_chunk(b"IHDR", _IHDR),
+    # GIF / BMP / TIFF / DIB header fields
+    "g_short": b"GIF89a\x01",
+    "g_zero": b"GIF89a\x00\x00\x00\x00\x00\x00\x00;",
+    "g_max": b"GIF87a\xff\xff\xff\xff\xf7\x00\x00" + b"\x00" * 30,
+    "b_neg": b"BM" + struct.pack("<IHHI", 70, 0, 0, 54) + struct.pack("<IiiHHIIiiII", 40, -2147483648, -2147483648, 1, 24, 0, 0, 0, 0, 0, 0),
+    "b_trunc": b"BM" + struct.pack("<IHHI", 70, 0, 0, 54) + b"\x28\x00\x00",
+    "b_hdr0": b"BM" + struct.pack("<IHHI", 0, 0, 0, 0) + struct.pack("<IiiHH", 0, 1, 1, 0, 0) + b"\x00" * 24,
+    "t_le": b"II\x2a\x00\x08\x00\x00\x00\xff\xff" + b"\x00" * 30,
+    "t_be": b"MM\x00\x2a\xff\xff\xff\xff",
+    "dib_bpp": struct.pack("<IiiHHIIiiII", 40, 3, 3, 1, 3, 0, 0, 0, 0, 0, 0) + b"\x00" * 40,
+}
+JPEG_HOSTILE = [k for k in HOSTILE_IMAGES if k.startswith("j_")]
+_RASTER_EXT = (".png", ".jpg", ".jpeg", ".gif", ".bmp", ".tif", ".tiff", ".emf", ".wmf")
+
+
+def zip_images(data: bytes, img: bytes) -> bytes:
+    """every raster media part of a ZIP container (OOXML media/, ODF Pictures/, EPUB images) becomes `img`."""
+    try:
+        zin = zipfile.ZipFile(io.BytesIO(data))
+        items = [(i, zin.read(i)) for i in zin.infolist()]
+    except Exception:
+        return data
+    out = io.BytesIO()
+    with zipfile.ZipFile(out, "w", zipfile.ZIP_DEFLATED) as z:
+        for info, content in items:
+            if info.filename.lower().endswith(_RASTER_EXT):
+                content = img
+            if info.filename == "mimetype":
+                z.writestr(zipfile.ZipInfo("mimetype"), content)
+            else:
+                z.writestr(info.filename, content)
+    return out.getvalue()
+
+
+def rtf_with_picture(img: bytes, blip: str) -> bytes:
+    return ("{\\rtf1\\ansi\\deff0{\\fonttbl{\\f0 Arial;}}\n\\pard Picture follows\\par\n"
+            "{\\pict\\" + blip + "\\picw100\\pich100\\picwgoal1500\\pichgoal1500 " + img.hex() + "}\n"
+            "\\pard After the picture\\par\n}\n").encode("ascii")
+
+
+def epub_with_image(img: bytes, media: str) -> bytes:
+    from .docrun import rich_doc
+    from .writers import web
+    ext = {"image/jpeg": "jpg", "image/png": "png", "image/gif": "gif", "image/bmp": "bmp"}.get(media, "bin")
+    return web.write_epub({"chapters": [rich_doc("epub", 0)], "props": {"title": "t"},
+                           "images": [{"part": f"OEBPS/img/a.{ext}", "data": img, "href": f"img/a.{ext}", "media": media}]})
+
+
+def patch_embedded_image(data: bytes, img: bytes, nth: int) -> bytes:
+    """overwrite, in place, the start of the nth raw JPEG / PNG found in the container (OLE BLIP records, PDF
+    DCTDecode streams): sizes and the container's own structures stay as they are."""
+    import re
+    hits = [m.start() for m in re.finditer(b"\xff\xd8\xff|\x89PNG\r\n\x1a\n", data)]
+    if not hits:
+        return data
+    at = hits[nth % len(hits)]
+    img = img[: len(data) - at]
+    return data[:at] + img + data[at + len(img):]
